@@ -106,15 +106,18 @@ async fn clock_program(st: Rc<RefCell<ClockSt>>, host: &'static str, d_ms: u64, 
 pub fn c05_scenario(ch: &mut Chooser, thorough: bool) -> Exec {
     let ticks: &[u64] = &[1, 2, 3, 5, 7, 10];
     let tick = *ch.of("tick_ms", ticks);
-    let epochs = [UNIX_EPOCH + Duration::from_secs(1), UNIX_EPOCH + Duration::from_secs(1_704_067_200)];
+    let epochs = [UNIX_EPOCH + Duration::from_secs(1), UNIX_EPOCH + Duration::from_secs(1_704_067_200), UNIX_EPOCH + Duration::new(1_700_000_000, 123_456_789)];
     let epoch: SystemTime = *ch.of("epoch", &epochs);
     let random_order = ch.flag("random_host_order");
     let ds: &[u64] = &[1, 2, 3, 5, 10];
     let d1 = *ch.of("h1_sleep_ms", ds);
     let d2 = *ch.of("late_host_sleep_ms", &[2u64, 5]);
     let late_at = *ch.of("late_host_registered_after_steps", &[1usize, 4]);
-    // fault script for h1: crash at step c, bounce k steps later; or h1 finishes by itself and is bounced
-    let h1_finishes = ch.flag("h1_software_returns_by_itself");
+    // fault script for h1 (or for the late-registered h2): crash at step c, bounce k steps
+    // later; or h1 finishes by itself and is bounced
+    let victim: &'static str = *ch.of("fault_target", &["h1", "h2"]);
+    let shift = if victim == "h2" { late_at + 1 } else { 0 };
+    let h1_finishes = victim == "h1" && ch.flag("h1_software_returns_by_itself");
     let crash_points: Vec<Option<usize>> = if thorough {
         std::iter::once(None).chain((0..11).map(Some)).collect()
     } else {
@@ -158,16 +161,16 @@ pub fn c05_scenario(ch: &mut Chooser, thorough: bool) -> Exec {
             sim.client("c2", clock_program(st.clone(), "c2", 3, None));
             reg.push(("c2", k));
         }
-        if crash_at == Some(k) {
-            sim.crash("h1");
+        if crash_at.map(|c| c + shift) == Some(k) {
+            sim.crash(victim);
             crashed_at_step = Some(k);
-            obs.push(format!("crash h1 before step {k}"));
+            obs.push(format!("crash {victim} before step {k}"));
             feats.push("crash");
         }
         if let Some(c) = crashed_at_step {
             if k == c + down {
-                sim.bounce("h1");
-                obs.push(format!("bounce h1 before step {k}"));
+                sim.bounce(victim);
+                obs.push(format!("bounce {victim} before step {k}"));
                 crashed_at_step = None;
                 feats.push("bounce");
             }
@@ -179,9 +182,9 @@ pub fn c05_scenario(ch: &mut Chooser, thorough: bool) -> Exec {
                 feats.push("bounce-after-finish");
             }
         }
-        if bounce_without_crash && k == 3 {
-            sim.bounce("h1");
-            obs.push("bounce h1 without crash before step 3".into());
+        if bounce_without_crash && k == 3 + shift {
+            sim.bounce(victim);
+            obs.push(format!("bounce {victim} without crash before step {k}"));
             feats.push("bounce-without-crash");
         }
         st.borrow_mut().step = k;
@@ -236,7 +239,7 @@ pub fn c05_scenario(ch: &mut Chooser, thorough: bool) -> Exec {
     if let Some(v) = violation.as_mut() {
         v.sig = v.clause.to_string();
         v.scenario = format!(
-            "c05 tier={} tick={tick} random={random_order} d1={d1} d2={d2} late_at={late_at} finishes={h1_finishes} crash_at={crash_at:?} down={down} bounce_only={bounce_without_crash}",
+            "c05 tier={} tick={tick} random={random_order} d1={d1} d2={d2} late_at={late_at} finishes={h1_finishes} crash_at={crash_at:?} down={down} bounce_only={bounce_without_crash} victim={victim} epoch={epoch_dur:?}",
             if thorough { "thorough" } else { "quick" }
         );
         v.actions = obs.clone();
